@@ -135,6 +135,25 @@ def objective(P, trace):
     return float(_correct(final) - _correct(first))
 
 
+def dense_sparse(P, trace, ret, ret_twin, twin_ended_at=None):
+    """Relation between the two documented reward functions on the same legal trajectory (C08). They are
+    different objectives: the sparse return is 1 iff the final puzzle is solved (else 0), the dense return is the
+    change in correctly placed cells. `ret` belongs to this configuration's reward, `ret_twin` to the other one.
+    (Hook offered to the shared C08 machinery, which otherwise compares the two returns for equality.)"""
+    out = []
+    n = len(trace) - 1
+    if twin_ended_at is not None and twin_ended_at != n:
+        out.append(f"dense_sparse_same_length: twin reward function ended at {twin_ended_at}, original at {n}")
+    first, final = trace[0].S["puzzle"], trace[-1].S["puzzle"]
+    dense, sparse = (ret_twin, ret) if P.params["reward"] == "sparse" else (ret, ret_twin)
+    P.hit("dense_sparse_related")
+    if float(sparse) != float(_solved(final)):
+        out.append(f"sparse_return_is_solved: sparse return {sparse} but final puzzle solved = {_solved(final)}")
+    if float(dense) != float(_correct(final) - _correct(first)):
+        out.append(f"dense_return_is_delta: dense return {dense} != {_correct(final) - _correct(first)}")
+    return out
+
+
 def _perm_parity(seq):
     seq = list(seq)
     seen = [False] * len(seq)
